@@ -446,6 +446,23 @@ PROPS["C19"]["text"] += " Boundary VALUES of steps (index 0 / 1 / usize::MAX / 2
 PROPS["C18"]["text"] += " Generated long inputs (bounded, native): received words of every length 0..=40 with candidates at 0..=7 edits (substitution, deletion, insertion, adjacent transposition, and a transposed pair with an insertion between its letters -- where the restricted and the unrestricted Damerau-Levenshtein distance differ) in lists of 0..=8 candidates."
 PROPS["C14"]["text"] += " Accepted lists of 0, 1, 2, 3 and 5 alternatives: the alternatives listed after `expected one of` are read back from both messages and must be exactly the accepted list, in order."
 
+# after the eleventh batch of seeded changes (names, positions and attribute placement the catalogues did not vary)
+_ODD = ["derive_lowerodd_2", "derive_lowerodd_3", "derive_camelodd_2", "derive_camelodd_3", "derive_mapskip_2", "derive_mapskip_3", "derive_unitsodd"]
+for _p in ("C01", "C02", "C03", "C04"):
+    _more(_p, "enum", "derive-core-enum", "harnesses", _ODD)
+_more("C12", "enum", "derive-total-enum", "harnesses", _ODD)
+_more("C07", "enum", "derive-keys-enum", "harnesses", _ODD[:6])
+_more("C08", "enum", "derive-missing-enum", "harnesses", _ODD[:6])
+_more("C09", "enum", "derive-unknown-enum", "harnesses", ["derive_camelodd_2", "derive_camelodd_3"])
+_more("C10", "enum", "derive-enum-enum", "harnesses", ["derive_unitsodd"])
+_more("C11", "enum", "derive-fns-enum", "harnesses", ["derive_mapskip_2", "derive_mapskip_3"])
+_more("C15", "enum", "derive-order-enum", "harnesses", ["order_camel_3d", "order_deny4_3d", "order_fns5_3d"])
+for _p in ("C07", "C08", "C09"):
+    PROPS[_p]["text"] += " Identifiers the renaming rules must treat exactly (bounded, native): non-ASCII capitals and digits under rename_all = lowercase (LowerOdd), a digit followed by a letter and a trailing digit under camelCase with deny_unknown_fields (CamelOdd: a4addr -> a4Addr, x2d -> x2D, foo_bar9 -> fooBar9), each with the near-miss spellings in the dictionary; two and three members."
+PROPS["C10"]["text"] += " Variant identifiers with underscores, leading lower case and digits under camelCase (UnitsOdd: Http_Server -> httpServer, read_write -> readWrite, V2Beta -> v2Beta, a renamed variant), with the near-miss spellings as tags."
+PROPS["C11"]["text"] += " `map` on a field declared after a skipped field (MapSkip): the value obligation (what the functions return is what ends up in the result) now carries this property's label too."
+PROPS["C15"]["text"] += " Three members of which at least two carry the SAME key (an order-preserving source can present that) in all six orders, for Camel, Deny4 and Fns5: same multiset of reports (the value on success is not compared there: the last occurrence wins)."
+
 NOT_APPLICABLE = {
     "C20": "HTTP extractors are three-line async compositions of actix-web/axum extractors with deserr::deserialize; neither installed verifier can run or specify the frameworks (futures, pinning, runtime), so every obligation would be an assumed contract on actix/axum with nothing left to prove; the features are off by default and not compiled in the baseline.",
 }
